@@ -150,7 +150,11 @@ SameValue(x, y) ==
          [] x.t = "o" -> IF x.id = y.id THEN "same"
                          ELSE IF x.m # y.m \/ x.c # y.c THEN "ne" ELSE SameAll(x.fs, y.fs)
          [] x.t = "e" -> IF x.id = y.id THEN "same"
-                         ELSE IF x.m # y.m \/ x.c # y.c \/ x.tag # y.tag THEN "ne" ELSE SameAll(x.d, y.d)
+                         ELSE IF x.m # y.m \/ x.c # y.c \/ x.tag # y.tag THEN "ne"
+                         \* a variant without data is not an allocated object (spec.md 12.3.2: stored
+                         \* directly as its tag), so it has no identity apart from its tag
+                         ELSE IF Len(x.d) = 0 THEN "same"
+                         ELSE SameAll(x.d, y.d)
          [] x.t = "v" -> IF x.id = y.id THEN "same" ELSE "unknown"
          [] OTHER -> "unknown"
 
